@@ -1,29 +1,32 @@
 package main
 
 import (
+	"bytes"
 	"fmt"
 	"os"
 
-	"github.com/google/pprof/internal/zzverif/vdrv"
 	"github.com/google/pprof/internal/zzverif/vlib"
 	"github.com/google/pprof/profile"
 )
 
 func main() {
-	f0 := vlib.AFn{Name: "f", Sys: "f", File: "a.c", Start: 1}
-	g := vlib.AFn{Name: "g", Sys: "g", File: "a.c", Start: 5}
-	m := vlib.AMap{Build: "B1", File: "bin", Start: 16, Size: 8}
-	lf := vlib.ALoc{Map: m, Rel: 3, Lines: []vlib.ALine{{Fn: f0, Line: 10, Col: 1}}}
-	lg := vlib.ALoc{Map: m, Rel: 4, Lines: []vlib.ALine{{Fn: g, Line: 20, Col: 1}, {Fn: f0, Line: 11, Col: 1}}}
-	ap := vlib.AProf{ST: []vlib.AVT{{T: "samples", U: "count"}, {T: "t2", U: "u2"}}, Samples: []vlib.ASample{
-		{Locs: []vlib.ALoc{lg, lf}, Vals: []int64{3, 7}, Lab: []vlib.ASLab{{K: "k", V: []string{"x"}}}},
-		{Locs: []vlib.ALoc{lf}, Vals: []int64{-2, 100000}},
-	}}
-	p := vlib.NewConc(0).Profile(ap)
-	for _, args := range [][]string{{"-top"}, {"-top", "-sample_index=1"}, {"-tree"}, {"-traces"}, {"-dot"}, {"-callgrind"}, {"-peek=f"}, {"-tags"}, {"-raw"}, {"-top", "-mean", "-sample_index=1"}} {
-		a := append(append([]string{}, args...), "-nodecount=0", "-nodefraction=0", "-edgefraction=0", "-functions", "-flat", "-output=out", "src")
-		r := vdrv.Run(vdrv.Opts{Args: a, Fetch: func(string) (*profile.Profile, error) { return p.Copy(), nil }})
-		fmt.Println("=====", args, "err:", r.Err, "panic:", r.Panic, "uierr:", r.UIErr)
-		os.Stdout.Write(r.Files["out"])
+	b, _ := os.ReadFile(os.Args[1])
+	p, err := profile.ParseData(b)
+	fmt.Println("err:", err)
+	if err != nil {
+		return
+	}
+	var w bytes.Buffer
+	p.WriteUncompressed(&w)
+	q, err := profile.ParseUncompressed(w.Bytes())
+	fmt.Println("reparse err:", err)
+	a, c := vlib.ProjectFull(p), vlib.ProjectFull(q)
+	if !a.Equal(c) {
+		for i := range a.Samples {
+			if fmt.Sprint(a.Samples[i]) != fmt.Sprint(c.Samples[i]) {
+				fmt.Println("sample", i, a.Samples[i], "=>", c.Samples[i])
+			}
+		}
+		fmt.Println(a.Period, c.Period, a.ST, c.ST, a.PT, c.PT)
 	}
 }
